@@ -117,6 +117,7 @@ def run(ctx):
     # 3. read back (compared)
     ok = [(e, k, f) for (e, k), f in zip(signed, files) if f]
     g, m = read_stage(ctx, [f for e, k, f in ok])
+    read_stage(ctx, [f for e, k, f in ok][::2], op='sxg.read.buffer')
     back = [parse_ex(x) if x else None for x in g]
     # 4. verify before and after the round trip (compared), same instants
     items = []
